@@ -195,8 +195,15 @@ def constdef_task(bits):
                 ob = (got.bv(W) if isinstance(got, SymInt) else z3.BitVecVal(got, W)) == w
             if n in ('D', 'E'):
                 # division / remainder by a constant: decided for |A| < 2^23 only (two
-                # division circuits at the full width do not finish); stated in the bounds
+                # division circuits at the full width do not finish); stated in the bounds.
+                # Within that range the reference is computed on 32 bits and sign-extended.
                 Vv = p.notes['markers']['V']
+                a32 = z3.Extract(31, 0, a)
+                k = z3.BitVecVal(7 if n == 'D' else 9, 32)
+                rem = z3.SRem(a32, k)
+                ref32 = z3.If(rem < 0, a32 / k - 1, a32 / k) if n == 'D' else z3.If(rem < 0, rem + k, rem)
+                if got is not None:
+                    ob = (got.bv(W) if isinstance(got, SymInt) else z3.BitVecVal(got, W)) == z3.SignExt(W - 32, ref32)
                 ob = z3.Or(z3.Not(bool_z3(And(Vv >= -(1 << 23), Vv < (1 << 23)))), ob)
             r, mdl = p.sat(z3.Not(ob))
             if r == 'sat':
